@@ -178,7 +178,7 @@ class CompilerBase(ABC):
                             )
                         elif after_control and (not after_target):
                             noise_copy = op.noise
-                            tmp_noise = [nm.NoNoise, op.noise[1]]
+                            tmp_noise = [nm.NoNoise(), noise_copy[1]]
                             op.noise = tmp_noise
                             self._apply_additional_noise(
                                 state, op, circuit.n_quantum, q_index
@@ -191,7 +191,7 @@ class CompilerBase(ABC):
                                 q_index,
                                 classical_registers,
                             )
-                            tmp_noise = [op.noise[0], nm.NoNoise]
+                            tmp_noise = [noise_copy[0], nm.NoNoise()]
 
                             op.noise = tmp_noise
                             self._apply_additional_noise(
@@ -200,7 +200,7 @@ class CompilerBase(ABC):
                             op.noise = noise_copy
                         else:
                             noise_copy = op.noise
-                            tmp_noise = [op.noise[0], nm.NoNoise]
+                            tmp_noise = [noise_copy[0], nm.NoNoise()]
                             op.noise = tmp_noise
                             self._apply_additional_noise(
                                 state, op, circuit.n_quantum, q_index
@@ -213,7 +213,7 @@ class CompilerBase(ABC):
                                 classical_registers,
                             )
 
-                            tmp_noise = [nm.NoNoise, op.noise[1]]
+                            tmp_noise = [nm.NoNoise(), noise_copy[1]]
                             op.noise = tmp_noise
                             self._apply_additional_noise(
                                 state, op, circuit.n_quantum, q_index
